@@ -90,6 +90,9 @@ class C17(Base):
                 ops.append("start:%d:%d:%s" % (rng.randrange(k), rng.randint(1, n + 2), rng.choice("vvvsmn")))
             else:
                 ops.append("poll:%d" % rng.randrange(k))
+        if rng.random() < 0.25:
+            for _ in range(rng.choice([1, 1, 2])):
+                ops.insert(rng.randrange(len(ops) + 1), "pf")       # prefetch at any point of the history
         return "cache " + ";".join([header("a", k, needs, end)] + ops)
 
     def gen_fair(self, rng, maxlen, big=False):
@@ -183,6 +186,9 @@ class C17(Base):
                 ops.append("poll:%d" % c)
             else:
                 ops.append("fire")
+        if rng.random() < 0.3:
+            for _ in range(rng.choice([1, 1, 2])):
+                ops.insert(rng.randrange(len(ops) + 1), "pf")
         return "cache " + ";".join([header("s", k, [0] * n, 0)] + ops)
 
     def generate(self, rng, tier):
@@ -254,6 +260,17 @@ class C17(Base):
                     depth[c], polled[c], waiting[c] = d, False, False
                 elif o != "busy":
                     return "start on busy consumer answered %s" % o
+                continue
+            if p[0] == "pf":
+                # prefetch forwards to the source's (empty) hook: no bundle generated, source not asked, nobody woken
+                mm = re.match(r"^pf#(\d+)\.(\d+)!(.*)$", o)
+                if not mm:
+                    return "prefetch answered %s" % o
+                if int(mm.group(1)) != polls or int(mm.group(2)) != pulls:
+                    return ("lazy: prefetch asked the source / generated a bundle (polls %d->%s, bundles %d->%s)"
+                            % (polls, mm.group(1), pulls, mm.group(2)))
+                if mm.group(3) != "-":
+                    return "prefetch woke %s" % mm.group(3)
                 continue
             m = OBS_RE.match(o)
             if p[0] == "poll" and depth[int(p[1])] is None:
